@@ -156,7 +156,7 @@ fn batch_oracle(start: u64, n: usize, reply: &str, got: &Comp, ty: Option<&str>)
 	if entries.len() != n {
 		return Err(format!("batch of {n} returned {} results: {entries:?}", entries.len()));
 	}
-	if succ + fail != n || *succ != entries.iter().filter(|e| e.is_ok()).count() {
+	if succ.checked_add(*fail) != Some(n) || *succ != entries.iter().filter(|e| e.is_ok()).count() {
 		return Err(format!("counters succ={succ} fail={fail} do not match the {n} entries"));
 	}
 	let replies = reply_entries(reply);
@@ -840,8 +840,20 @@ fn gen_ws_case(rng: &mut Rng, out: &mut Out, caseno: u64, perm_case: Option<(usi
 		}
 		if kind == 1 && rng.chance(1, 12) {
 			// an element that is no legal message: the connection is given up, then the API once more
-			let text = gen_near_reply(rng, out, start, n, str_ids);
-			lines.push(format!("cl deliverx {}", hexs(&text)));
+			if rng.chance(1, 3) {
+				// a binary frame whose bytes are no UTF-8: the complete, well-formed reply with one damaged character
+				// inside the string result of its first entry
+				let idt = |i: u64| if str_ids { format!("\"{}\"", start + i) } else { (start + i).to_string() };
+				let mut es: Vec<String> = (0..n as u64).map(|i| format!("{{\"jsonrpc\":\"2.0\",\"id\":{},\"result\":{i}}}", idt(i))).collect();
+				es[0] = format!("{{\"jsonrpc\":\"2.0\",\"id\":{},\"result\":\"caf\u{e9}!\"}}", idt(0));
+				es.reverse();
+				out.count("utf8.in.batch-reply");
+				let bytes = utf8_damage(rng, &format!("[{}]", es.join(",")), |k| out.count(k));
+				lines.push(format!("cl deliverx {} bin", hex(&bytes)));
+			} else {
+				let text = gen_near_reply(rng, out, start, n, str_ids);
+				lines.push(format!("cl deliverx {}", hexs(&text)));
+			}
 			out.count("second.api-after-connection-given-up");
 			lines.push(format!("cl batch {}", rng.range(1, 3)));
 			lines.push("cl connected".into());
